@@ -112,7 +112,7 @@ theorem long_chunk_size_line_rejected (cfg : Cfg) (fuel : Nat) (p : PState) (chu
     (hlong : pos > cfg.maxLine) :
     (chunkedLoop cfg (fuel + 1) p chunk evs).1 = .err .lineTooLong false := by
   have : chunk.isEmpty = false := by cases chunk <;> simp_all
-  simp [chunkedLoop, this, hs, hf, hlong]
+  simp [chunkedLoop, sizeStep, this, hs, hf, hlong]
 
 /-- **After a rejection nothing more is parsed** (the error is latched). -/
 theorem rejected_stays_rejected (cfg : Cfg) (urlOk : Bool → Bytes → Bool) (st : St) (d : Bytes)
